@@ -1,3 +1,18 @@
 import PieModel.Props.C16
-open PieModel
-#print axioms C16_placeholder
+
+#print axioms PieModel.C16_isortBy_perm
+#print axioms PieModel.C16_isortBy_sorted
+#print axioms PieModel.C16_isortBy_perm_of_injOn
+#print axioms PieModel.C16_isortBy_set
+#print axioms PieModel.C16_reorder_perm_invariant
+#print axioms PieModel.C16_reorder_perm_invariant_live
+#print axioms PieModel.C16_dfsBackward_visited_set
+#print axioms PieModel.C16_addEdge_change_sets
+#print axioms PieModel.C16_addEdge_reorder_order_independent
+#print axioms PieModel.C16_addEdge_order_independent
+#print axioms PieModel.C16_addEdge_order_independent_reachable
+#print axioms PieModel.C16_queueSort_perm_invariant
+#print axioms PieModel.C16_queuePop_perm_invariant
+#print axioms PieModel.C16_queuePopLeastFrom_perm_invariant
+#print axioms PieModel.C16_queueDrain_perm_invariant
+#print axioms PieModel.C16_queueAdd_order
